@@ -193,21 +193,22 @@ Definition iteration (reads : list read) (n k : nat) (bridging : bool) (s : st) 
 Definition oracle := list (list nat * list nat).
 
 (* The loop is driven by the oracle (structural recursion): it stops when no read is undecided, or
-   when the oracle is used up (then `und` of the result is non-empty: an intermediate state). *)
+   when the oracle is used up (then `und` of the result is non-empty: an intermediate state).
+   The unused rest of the oracle is returned (the main phase continues with it). *)
 Fixpoint helper (reads : list read) (n k : nat) (bridging : bool) (o : oracle) (s : st)
-  : (st * list outer_item) + rs_err :=
+  : (st * list outer_item * oracle) + rs_err :=
   match und s with
-  | [] => inl (s, [])
+  | [] => inl (s, [], o)
   | _ :: _ =>
       match o with
-      | [] => inl (s, [])
+      | [] => inl (s, [], [])
       | (so, bo) :: o' =>
           match iteration reads n k bridging s so bo with
           | inr e => inr e
           | inl (s1, item) =>
               match helper reads n k bridging o' s1 with
               | inr e => inr e
-              | inl (s2, items) => inl (s2, item :: items)
+              | inl (s2, items, rest) => inl (s2, item :: items, rest)
               end
           end
       end
@@ -230,33 +231,34 @@ Definition second_phase_undecided (rule : pref_rule) (all preferred : list nat) 
 
 Record rs_result := RsResult {
   r_state : st;                     (* final coverage monitor, selected set, undecided set *)
-  r_trace1 : list outer_item;       (* preferred-source phase *)
-  r_trace2 : list outer_item;       (* main phase *)
+  r_trace1 : list outer_item;       (* outer iterations of the preferred-source phase *)
+  r_trace2 : list outer_item;       (* outer iterations of the main phase *)
+  r_rest : oracle;                  (* unused part of the oracle *)
   r_complete : bool }.              (* both loops ran until no read was undecided *)
 
 Definition is_nil {A} (l : list A) : bool := match l with [] => true | _ => false end.
 
-(* pref : for every read, whether read.source_id is in preferred_source_ids *)
+(* pref : for every read, whether read.source_id is in preferred_source_ids.
+   o : the pop orders of all outer iterations (preferred phase first, then the main phase). *)
 Definition readselection (rule : pref_rule) (reads : list read) (pref : list bool) (n k : nat)
-    (bridging : bool) (o1 o2 : oracle) : rs_result + rs_err :=
+    (bridging : bool) (o : oracle) : rs_result + rs_err :=
   if negb (forallb (fun r => 2 <=? length r) reads) then inr ValueErr else
   let all := seq 0 (length reads) in
   let preferred := filter (fun ri => nth ri pref false) all in
-  let s0 := St (cov_init n) [] preferred in
   if is_nil preferred then
-    match helper reads n k bridging o2 (St (cov_init n) [] all) with
+    match helper reads n k bridging o (St (cov_init n) [] all) with
     | inr e => inr e
-    | inl (s2, t2) => inl (RsResult s2 [] t2 (is_nil (und s2)))
+    | inl (s2, t2, rest) => inl (RsResult s2 [] t2 rest (is_nil (und s2)))
     end
   else
-    match helper reads n k bridging o1 s0 with
+    match helper reads n k bridging o (St (cov_init n) [] preferred) with
     | inr e => inr e
-    | inl (s1, t1) =>
-        if negb (is_nil (und s1)) then inl (RsResult s1 t1 [] false) else
+    | inl (s1, t1, o2) =>
+        if negb (is_nil (und s1)) then inl (RsResult s1 t1 [] o2 false) else
         match helper reads n k bridging o2
                 (St (cov s1) (sel s1) (second_phase_undecided rule all preferred)) with
         | inr e => inr e
-        | inl (s2, t2) => inl (RsResult s2 t1 t2 (is_nil (und s2)))
+        | inl (s2, t2, rest) => inl (RsResult s2 t1 t2 rest (is_nil (und s2)))
         end
     end.
 
@@ -297,12 +299,13 @@ Definition same_set (a b : list nat) : bool := subsetb a b && subsetb b a.
 Definition oracle_of (t : list outer_item) : oracle := map (fun it => (map fst (snd (fst it)), map fst (snd it))) t.
 
 (* L2: replaying the implementation's pop orders, the model takes the same decision at every step,
-   sees the same undecided sets, runs both loops to completion and returns the same set *)
+   sees the same undecided sets, uses up exactly the traced iterations, runs both loops to completion
+   and returns the same set *)
 Definition replay_ok (rule : pref_rule) (reads : list read) (pref : list bool) (n k : nat) (bridging : bool)
-    (t1 t2 : list outer_item) (result : list nat) : bool :=
-  match readselection rule reads pref n k bridging (oracle_of t1) (oracle_of t2) with
+    (t : list outer_item) (result : list nat) : bool :=
+  match readselection rule reads pref n k bridging (oracle_of t) with
   | inr _ => false
-  | inl r => r_complete r && list_eqb item_eqb (r_trace1 r) t1 && list_eqb item_eqb (r_trace2 r) t2
+  | inl r => r_complete r && is_nil (r_rest r) && list_eqb item_eqb (r_trace1 r ++ r_trace2 r) t
              && same_set (sel (r_state r)) result
   end.
 
